@@ -19,7 +19,11 @@ ASSUME = ['scope of a transition = child of the least common proper ancestor of 
 def run(tier, seed):
     # plus: the larger skeletons in which a deep history state remembers an orthogonal state (several
     # states of equal depth are restored at once: their order is only visible from 7 states on)
-    extra = [([(6, 7, 1)] if tier == 'quick' else [(6, 8, 1)], {'require': 'hd+o', 'schemes': ('asc',)})]
+    extra = [([(6, 7, 1)] if tier == 'quick' else [(6, 8, 1)], {'require': 'hd+o', 'schemes': ('asc',)}),
+             # nested orthogonal states with pairs of transitions from different regions: the second
+             # transition must find the first one completely stabilised (sibling regions entered)
+             ([(6, 7, '2o')] if tier == 'quick' else [(6, 8, '2o')],
+              {'require': 'nested-orth', 'schemes': ('asc',), 'history': False, 'final': False, 'decls': ('given',)})]
     return schemes.run('C03', tier, seed, PLAN[tier], ['trace', 'order'], {'trace', 'order', 'config'},
                        RULE, ASSUME, decls=('given', 'rev'), send=True, extra_plans=extra)
 
